@@ -2,6 +2,7 @@ package verifrt
 
 import (
 	"fmt"
+	"reflect"
 	"sync"
 	"unsafe"
 )
@@ -74,6 +75,8 @@ type freeBuf struct {
 type simPool struct {
 	free  []freeBuf
 	owner map[uintptr]int // buffers handed out by the pool -> task
+	bufs  bool            // the pool has held scratch buffers (garbage buffers may be injected)
+	other bool            // the pool has held something else
 }
 
 // bufName gives pooled buffers run-local ordinal names so that messages do not
@@ -159,6 +162,22 @@ func sumWords(w []uint) uint64 {
 	return h ^ uint64(len(w))
 }
 
+// viewOf is PoolView extended to objects that are not scratch buffers (an edited
+// tree may pool other things): they are identified by their address and have no
+// words to poison or verify.
+func viewOf(v interface{}) (id uintptr, words []uint, isBuf bool) {
+	id, words = PoolView(v)
+	if id != 0 {
+		return id, words, true
+	}
+	rv := reflect.ValueOf(v)
+	switch rv.Kind() {
+	case reflect.Ptr, reflect.Map, reflect.Slice, reflect.Chan, reflect.Func, reflect.UnsafePointer:
+		return rv.Pointer(), nil, false
+	}
+	return 0, nil, false
+}
+
 func getPool(p *sync.Pool) *simPool {
 	sp := pools[p]
 	if sp == nil {
@@ -224,7 +243,7 @@ func PoolGet(p *sync.Pool) interface{} {
 	}
 	if pickI < 0 {
 		for _, g := range pcfg.Garbage {
-			if g.At == idx && PoolFresh != nil {
+			if g.At == idx && PoolFresh != nil && !sp.other && (sp.bufs || p.New == nil) {
 				c := g.Cap
 				if c < 1 {
 					c = 1
@@ -241,6 +260,14 @@ func PoolGet(p *sync.Pool) interface{} {
 			}
 		}
 		pstats.Nil++
+		if p.New != nil {
+			// like the real pool: an empty pool with a New function never returns nil
+			v := p.New()
+			if id, _, _ := viewOf(v); id != 0 {
+				sp.owner[id] = tid
+			}
+			return v
+		}
 		return nil
 	}
 	if pickI != len(sp.free)-1 {
@@ -248,7 +275,7 @@ func PoolGet(p *sync.Pool) interface{} {
 	}
 	fb := sp.free[pickI]
 	sp.free = append(sp.free[:pickI:pickI], sp.free[pickI+1:]...)
-	_, w := PoolView(fb.v)
+	_, w, _ := viewOf(fb.v)
 	pstats.Verified++
 	pstats.WordsVerified += len(w)
 	if len(w) != fb.n || sumWords(w) != fb.sum {
@@ -286,9 +313,14 @@ func PoolPut(p *sync.Pool, v interface{}) {
 	if v == nil {
 		return
 	}
-	id, w := PoolView(v)
+	id, w, isBuf := viewOf(v)
+	if isBuf {
+		sp.bufs = true
+	} else {
+		sp.other = true
+	}
 	for _, fb := range sp.free {
-		if fb.id == id {
+		if fb.id == id && id != 0 {
 			poolViolate(fmt.Sprintf("pooled buffer %s put twice (Put #%d by task %d, already free since a put by task %d)", bufName(id), idx, tid, fb.putBy))
 		}
 	}
@@ -308,7 +340,7 @@ func PoolPut(p *sync.Pool, v interface{}) {
 	if len(sp.free) >= 48 {
 		// bounded like a real pool (which the GC trims): verify and drop the oldest
 		old := sp.free[0]
-		_, ow := PoolView(old.v)
+		_, ow, _ := viewOf(old.v)
 		if len(ow) != old.n || sumWords(ow) != old.sum {
 			poolViolate(fmt.Sprintf("pooled buffer %s (put by task %d) was written after it was put back (detected when trimmed)", bufName(old.id), old.putBy))
 		}
@@ -322,7 +354,7 @@ func PoolPut(p *sync.Pool, v interface{}) {
 
 func (sp *simPool) verify(where string) string {
 	for _, fb := range sp.free {
-		_, w := PoolView(fb.v)
+		_, w, _ := viewOf(fb.v)
 		pstats.WordsVerified += len(w)
 		if len(w) != fb.n || sumWords(w) != fb.sum {
 			return fmt.Sprintf("pooled buffer %s (put by task %d) was written after it was put back (detected at %s)", bufName(fb.id), fb.putBy, where)
